@@ -395,7 +395,7 @@ def run(i):
     SECOND_ROLE['role'] = sc.get('second_role', 'A')
     ex = Explorer(lambda: build(sc), enabled, apply_event, monitors=MONITORS, extra_fn=extra,
                   abstraction_checks=10 if ck.quick else 40, replay_every=100 if ck.quick else 400,
-                  max_states=30000 if ck.quick else 400000, label='%s/%s' % (sc['kind'], sc['role']), cover=COVER,
+                  max_states=30000 if ck.quick else 60000, label='%s/%s' % (sc['kind'], sc['role']), cover=COVER,
                   continuous_init_fn=lambda: build(sc, cls=ContinuousWorld))
     ex.run()
     return ex.summary()
